@@ -332,6 +332,58 @@ wide_radix!(c06_wide_hex_u64, u64, "u64", 17, false, b'x', 16, b"0ffffffffffffff
 // 32 hex digits: magnitudes up to 2^128-1 against 64- and 128-bit signed targets (u128 -> i128 -> T narrowing)
 wide_radix!(c06_wide_hex32_i64_pos, i64, "i64", 32, false, b'x', 16, b"00000000000000007fffffffffffffff", 37, signed);
 wide_radix!(c06_wide_hex32_i64_neg, i64, "i64", 32, true, b'x', 16, b"00000000000000008000000000000000", 37, signed);
+
+// Cheap variant of the 128-bit boundary: `[-]0x` + two SYMBOLIC top digits + 30 concrete digits
+// (all 'f' or all '0'), i.e. magnitudes XY*16^30 (+ 16^30-1). Signed targets must reject every
+// magnitude beyond their range - in particular those >= 2^127, which a `u128 as i128` cast would
+// wrap to small negative numbers.
+macro_rules! hex32_top {
+    ($name:ident, $t:ty, $tyname:expr, $neg:expr, $fill:expr) => {
+        #[kani::proof]
+        #[kani::unwind(38)]
+        #[kani::stub(core::str::validations::run_utf8_validation, stdlite::run_utf8_validation)]
+        fn $name() {
+            const OFF: usize = if $neg { 3 } else { 2 };
+            let mut buf = [$fill; 32 + OFF];
+            buf[0] = if $neg { b'-' } else { b'0' };
+            buf[OFF - 2] = b'0';
+            buf[OFF - 1] = b'x';
+            let x: u8 = kani::any();
+            let y: u8 = kani::any();
+            kani::assume(x < 16 && y < 16);
+            let hexd = |d: u8| if d < 10 { b'0' + d } else { b'a' + d - 10 };
+            buf[OFF] = hexd(x);
+            buf[OFF + 1] = hexd(y);
+            let top = (x as u128) * 16 + y as u128;
+            let tail: u128 = if $fill == b'f' { (1u128 << 120) - 1 } else { 0 };
+            let mag: u128 = (top << 120) | tail;
+            // exact expected value as i128 (if representable)
+            let fits_i128 = if $neg { mag <= (1u128 << 127) } else { mag < (1u128 << 127) };
+            let r = parse_int_signed::<$t>(as_str(&buf), $tyname, loc(), false);
+            match &r {
+                Ok(v) => {
+                    assert!(fits_i128, "magnitude beyond i128 accepted (wrapped)");
+                    let want: i128 = if $neg { (mag as i128).wrapping_neg() } else { mag as i128 };
+                    assert!(*v as i128 == want, "value differs from the exact one");
+                    assert!(want >= <$t>::MIN as i128 && want <= <$t>::MAX as i128, "out-of-range value accepted");
+                }
+                Err(_) => {
+                    let want_ok = fits_i128 && {
+                        let want: i128 = if $neg { (mag as i128).wrapping_neg() } else { mag as i128 };
+                        want >= <$t>::MIN as i128 && want <= <$t>::MAX as i128
+                    };
+                    assert!(!want_ok, "in-range integer rejected");
+                }
+            }
+            kani::cover!(r.is_err(), "rejected");
+            std::mem::forget(r);
+        }
+    };
+}
+hex32_top!(c06_hex32_top_i64_f, i64, "i64", false, b'f');
+hex32_top!(c06_hex32_top_i64_neg_f, i64, "i64", true, b'f');
+hex32_top!(c06_hex32_top_i128_0, i128, "i128", false, b'0');
+hex32_top!(c06_hex32_top_i128_neg_0, i128, "i128", true, b'0');
 wide_radix!(c06_wide_hex32_i128_pos, i128, "i128", 32, false, b'x', 16, b"7fffffffffffffffffffffffffffffff", 37, signed);
 wide_radix!(c06_wide_hex32_i128_neg, i128, "i128", 32, true, b'x', 16, b"80000000000000000000000000000000", 37, signed);
 wide_radix!(c06_wide_hex33_u128, u128, "u128", 33, false, b'x', 16, b"0ffffffffffffffffffffffffffffffff", 38, unsigned);
@@ -456,6 +508,24 @@ fn c06_leading_zero_4() {
 // Float special tokens: .nan/.inf forms (case, sign) are decided before the decimal parser.
 // dec2flt itself is libcore's and outside; here T::from_str is only reached for other tokens.
 // ------------------------------------------------------------------------------------------
+/// Exact replacement for `<f64 as FromStr>::from_str` on DIGIT-FREE inputs (the only ones the
+/// float-token harnesses produce): Rust's float syntax without digits is [+-]?(inf|infinity|nan),
+/// ASCII case-insensitive. The error value is obtained from the unstubbed f32 parser.
+fn f64_from_str_nodigits(s: &str) -> Result<f64, core::num::ParseFloatError> {
+    let b = s.as_bytes();
+    let (neg, r) = if !b.is_empty() && (b[0] == b'+' || b[0] == b'-') { (b[0] == b'-', &b[1..]) } else { (false, b) };
+    if eq_ci(r, b"inf") || eq_ci(r, b"infinity") {
+        return Ok(if neg { f64::NEG_INFINITY } else { f64::INFINITY });
+    }
+    if eq_ci(r, b"nan") {
+        return Ok(f64::NAN);
+    }
+    match "".parse::<f32>() {
+        Err(e) => Err(e),
+        Ok(_) => Ok(0.0),
+    }
+}
+
 fn float_special_n<const N: usize>() {
     let a: [u8; N] = any_ascii::<N>();
     let s = &a[..];
@@ -500,6 +570,7 @@ macro_rules! float_special {
         #[kani::proof]
         #[kani::unwind($unwind)]
         #[kani::stub(core::str::validations::run_utf8_validation, stdlite::run_utf8_validation)]
+        #[kani::stub(<f64 as core::str::FromStr>::from_str, f64_from_str_nodigits)]
         fn $name() {
             float_special_n::<$n>()
         }
